@@ -295,6 +295,8 @@ structure Impl where
   sticky : String := ""
   /-- why `notification.xml` cannot be parsed (kept while it stays unparsable) -/
   badNotif : String := ""
+  /-- the same for the copy of the files taken by `fsave` -/
+  bakBad : String := ""
 deriving Repr, Inhabited
 
 structure St where
@@ -815,10 +817,13 @@ def updateImpl (pre : Impl) (op : List String) (ret : String) (ows : List String
   let sticky := globalClass (pre.pubs ++ pubs) (extra ++ opUris) pre.sticky
   let badNotif := match files with
     | some f => if f.nf.isSome then "" else
-        if pre.badNotif != "" then pre.badNotif
+        if op.headD "" == "frestore" && pre.bakBad != "" then pre.bakBad
+        else if pre.badNotif != "" then pre.badNotif
         else if pre.staleNewNotif then "stale-new-notification" else "unparsable"
     | none => pre.badNotif
-  { pubs, sess, serial, files, seen, lastWriteBroken := broken, staleNewNotif := staleNN, staleTmp, sticky, badNotif }
+  let bakBad := if op.headD "" == "fsave" then pre.badNotif else pre.bakBad
+  { pubs, sess, serial, files, seen, lastWriteBroken := broken, staleNewNotif := staleNN, staleTmp, sticky,
+    badNotif, bakBad }
 
 def step (st : St) (line : String) : St × String :=
   let (opS, obsS) := splitObs line
